@@ -99,7 +99,8 @@ static void strs(void)
 		arr("code", v, n, 0);
 		for (i = -1; i <= n + 1; i++) {
 			char *r = uc_chr(s, i);
-			v[i + 1] = r >= s && r <= s + nb ? r - s : -1;
+			/* an empty result is the end of s, wherever the empty string lives */
+			v[i + 1] = !*r ? nb : (r >= s && r <= s + nb ? r - s : -1);
 		}
 		arr("chr", v, n + 3, 0);
 		for (i = 0; i <= nb; i++)
